@@ -242,7 +242,10 @@ def codecFor (kind : String) (params : List String) (ts : List String) : Option 
       mk pGeom ts (fun g => if g.ok then some (g.enc p) else none) id rGeom (AreaGeometry.dec p)
         AreaGeometry.canonical
   | "nss", [] => mk (pOf nssOf) ts (fun n => some n.enc) id rNss Namespaces.dec
-  | "str", [] => mk (pOf parseHex) ts Str.marshal id renderHex Str.dec
+  | "str", [] =>
+      -- the answer also carries `MarshalledStringEquals` against the string, a proper prefix, an extension and a
+      -- one-byte change: must be `1000`
+      mk (pOf parseHex) ts Str.marshal id (fun s => renderHex s ++ " 1000") Str.dec
   | "nsi", [] => mk (pOf nsiOf) ts (fun x => some x.enc) id rNSI NamespaceIndex.dec
   | "nsis", [] => mk pNSIs ts NamespaceIndices.marshal id rNSIs NamespaceIndices.dec
   | "plh", [] => mk pPLH ts PostingListHeader.marshal id rPLH PostingListHeader.dec
